@@ -122,6 +122,15 @@ def render(ids, crlf=False, style=None, junk=None):
                        + nl)
         elif name == 'preamble':
             out.append(b'#' + sid.encode() + b': length=2' + nl + b'x\n')
+        elif name == 'meta' and st & 16:
+            # metadata whose content describes a copy / move / delete: what
+            # may follow a section never depends on what the section says
+            body = [b'{"op": "copy"}\n', b'{"op": "move", "path": '
+                    b'{"old": "a", "new": "b"}}\n',
+                    b'{"op": "delete"}\n', b'{"stats": {"files": 0}}\n'][
+                        (st >> 6) % 4]
+            out.append(b'#' + sid.encode() + b': format=json, length=%d'
+                       % len(body) + nl + body)
         elif name == 'meta':
             out.append(b'#' + sid.encode() + b': format=json, length=9' + nl
                        + b'{"k": 1}\n')
@@ -214,7 +223,8 @@ def sweep_tasks(tier, master):
     # the same tree again under header styles that never change legality
     for sname, st in (('blank-line-before-every-header', 1),
                       ('type=binary-on-every-diff', 4 | 8),
-                      ('options-on-containers', 4)):
+                      ('options-on-containers', 4),
+                      ('copy/move-metadata', 16)):
         for first in R.NEXT['diffx']:
             tasks.append({'name': 'sweep:prefix-tree', 'first': first,
                           'depth': depth - 1, 'exhaustive': True,
